@@ -65,6 +65,11 @@ EXTRA_FEATURES = [
     'log_wrong',       # log -> <out>/d   (std name, non-standard target)
     'ln_tgt',          # ln_tgt -> <r1>/cylc-run/<wf>/work (a std target)
     'stray',           # <r1>/cylc-run/<wf>/stray file next to the targets
+    # siblings whose NAME has another entry's name as a string prefix
+    'work_cycles',     # work/1/f work/2/f work/10/f    (cycle dirs)
+    'a20',             # a20/f next to a2/f             (top level)
+    'ln_out_d2',       # real dir ln_out_d2/f next to the link ln_out_d
+    'nest',            # a2/m1/x a2/m1/b/m2: a match deep inside a match
 ]
 FEATURES = STD_FEATURES + EXTRA_FEATURES
 
@@ -72,6 +77,7 @@ PATTERNS_QUICK = [
     None, '*', '**', '**/f', 'a*', 'a*/', 'work', 'work/*', 'log',
     'log/job', 'share', 'share/cycle', 'share/*', 'ln_out_d', 'ln_out_d/*',
     'ln_*', 'ln_*/*', '*/*', '**/keep', 'a2/*/*', '../otherwf',
+    'work/*/**', '**/*', 'a*/**', '**/m*',
 ]
 PATTERNS_THOROUGH = PATTERNS_QUICK + [
     'work/', 'work/d', 'log/*', 'log/job/*', 'share/cycle/*', 'ln_out_d/',
@@ -97,6 +103,11 @@ def consistent(fs: frozenset) -> bool:
             'work_real' in fs or 'work_link' in fs):
         return False
     if 'ln_tgt' in fs and 'work_link' not in fs:
+        return False
+    if 'work_cycles' in fs and not (
+            'work_real' in fs or 'work_link' in fs):
+        return False
+    if 'ln_out_d2' in fs and 'ln_out_d' not in fs:
         return False
     if 'stray' in fs and not any(
             f in fs for f in ('work_link', 'log_link', 'share_link')):
@@ -205,6 +216,17 @@ def build(box: Box, feats) -> dict:
         os.symlink(box.target('work'), f'{box.run}/ln_tgt')
     if 'stray' in fs:
         _w(f'{box.root}/r1/cylc-run/{WF}/stray')
+    if 'work_cycles' in fs:
+        for c in ('1', '2', '10'):
+            _w(f'{box.run}/work/{c}/f')
+    if 'a20' in fs:
+        _w(f'{box.run}/a20/f')
+    if 'ln_out_d2' in fs:
+        _w(f'{box.run}/ln_out_d2/f')
+        _w(f'{box.run}/ln_out_d2/keep')
+    if 'nest' in fs:
+        _w(f'{box.run}/a2/m1/x')
+        _w(f'{box.run}/a2/m1/b/m2')
     return std
 
 
@@ -244,6 +266,7 @@ class VTree:
             self.kids.setdefault(os.path.dirname(p), []).append(
                 os.path.basename(p))
         self.seam_hits = 0
+        self.optional = set()
 
     def real(self, vrel: str) -> str:
         """Real path of the object named by a virtual path."""
@@ -317,6 +340,10 @@ class VTree:
         if not self.is_dir(vrel):
             if self.kind(vrel) == 'link-dir':
                 self.seam_hits += 1     # a glob would walk through here
+                if all(x == '**' for x in comps):
+                    # "LINK/**" names LINK itself (zero directories): like
+                    # "LINK/", deleting the link object is not judged
+                    self.optional.add(vrel)
             return
         if c == '**':
             yield from self.expand(vrel, rest)
@@ -339,6 +366,7 @@ class VTree:
         dironly = part.endswith('/')
         comps = [c for c in part.split('/') if c]
         req, opt = set(), set()
+        self.optional = opt
         for v in self.expand('', comps):
             k = self.kind(v)
             if v == '':
@@ -658,7 +686,8 @@ def run(ctx: Ctx) -> Result:
         'no hidden (dot) names in the generated trees: whether "*" should '
         'match them is not stated',
         'a trailing-slash pattern matching a non-standard symlink that points '
-        'to a directory may or may not delete the link itself (not judged); '
+        'to a directory (also "LINK/**") may or may not delete the link '
+        'itself (not judged); '
         '"**" may or may not remove the run directory itself',
         'directories above a standard target, below <root>/cylc-run, may be '
         'removed once empty (documented tidy-up); anything else outside the '
